@@ -1,6 +1,336 @@
-//! C15 — not built yet.
-use crate::ev::Tier;
-pub fn main(_tier: Tier, _replay: Option<serde_json::Value>) -> i32 {
-    eprintln!("C15: check not built yet");
-    2
+//! C15 — compressed circuit descriptions compile to the identical keys.
+
+use dusk_plonk::prelude::*;
+use serde_json::json;
+
+use crate::c01::{sized, Shape};
+use crate::c05::Fam;
+use crate::c17::alloc::measure_capped;
+use crate::c17::mp::{self, Announce, Desc};
+use crate::e1;
+use crate::ev::{Run, Tier};
+use crate::fe::*;
+use crate::prog::Prog;
+
+struct Item {
+    name: String,
+    prog: Prog,
+}
+
+fn named_circuits() -> Vec<Item> {
+    let mut v = vec![];
+    let mut push = |name: &str, p: Prog| v.push(Item { name: format!("named/{}", name), prog: p });
+    push(
+        "unused-witnesses",
+        Prog::new(|c| {
+            for i in 0..5 {
+                c.append_witness(fe(100 + i));
+            }
+            let a = c.append_witness(fe(7));
+            c.append_witness(fe(8));
+            c.assert_equal_constant(a, fe(7), None);
+            c.append_witness(fe(9));
+            Ok(())
+        }),
+    );
+    push(
+        "repeated-selector-tuples",
+        Prog::new(|c| {
+            for i in 0..6u64 {
+                let a = c.append_witness(fe(i));
+                let b = c.append_witness(fe(2 * i));
+                c.gate_add(Constraint::new().left(1).right(1).a(a).b(b));
+            }
+            Ok(())
+        }),
+    );
+    push(
+        "distinct-selector-tuples",
+        Prog::new(|c| {
+            for i in 0..6u64 {
+                let a = c.append_witness(fe(i));
+                let b = c.append_witness(fe(3));
+                c.gate_add(Constraint::new().left(fe(10 + i)).right(fe(20 + i)).constant(fe(30 + i)).a(a).b(b));
+            }
+            Ok(())
+        }),
+    );
+    push(
+        "selectors-equal-builtin-constants",
+        Prog::new(|c| {
+            // 0, 1, -1 are the built-in table entries
+            let a = c.append_witness(fe(5));
+            let b = c.append_witness(fe(6));
+            c.gate_add(Constraint::new().left(1).right(-BlsScalar::one()).a(a).b(b));
+            c.gate_add(Constraint::new().left(-BlsScalar::one()).right(1).constant(0).a(a).b(b));
+            c.gate_mul(Constraint::new().mult(1).a(a).b(b));
+            Ok(())
+        }),
+    );
+    push(
+        "zero-valued-public-inputs",
+        Prog::new(|c| {
+            c.append_public(zero());
+            c.append_public(fe(4));
+            c.append_public(zero());
+            Ok(())
+        }),
+    );
+    push(
+        "no-multiplication-gate-after-init",
+        Prog::new(|c| {
+            let a = c.append_witness(fe(5));
+            c.assert_equal(a, a);
+            Ok(())
+        }),
+    );
+    for c in [8usize, 9, 10, 15, 16, 17, 26, 58] {
+        v.push(Item { name: format!("sized/c{}/pi-first", c), prog: sized(c, &Shape::Pi(vec![4])) });
+        v.push(Item { name: format!("sized/c{}/pi-last", c), prog: sized(c, &Shape::Pi(vec![-1])) });
+        v.push(Item { name: format!("sized/c{}/custom-last", c), prog: sized(c, &Shape::CustomLast(Fam::Range)) });
+    }
+    v
+}
+
+struct RouteCmp {
+    constraints: usize,
+    layout: u64,
+    /// per capacity: (direct ok?, compressed ok?, bytes equal?, direct err, compressed err)
+    caps: Vec<(String, bool, bool, bool, String, String)>,
+    compress_err: Option<String>,
+    compressed_len: usize,
+}
+
+fn compare_routes(prog: &Prog, full: &PublicParameters, label: &[u8]) -> Result<RouteCmp, String> {
+    let snap = prog.run().map_err(|e| format!("{:?}", e))?;
+    let c = snap.gates.len();
+    let n = e1::min_degree(c);
+    prog.install_default();
+    let bytes = match Prog::compress() {
+        Ok(b) => b,
+        Err(e) => return Ok(RouteCmp { constraints: c, layout: crate::m1::layout_key(&snap), caps: vec![], compress_err: Some(format!("{:?}", e)), compressed_len: 0 }),
+    };
+    let mut caps = vec![];
+    for (cn, points) in [("min-1", n + 6), ("min", n + 7), ("min+1", n + 8), ("ample", 2 * n + 40)] {
+        let pp = crate::setup::truncate_pp(full, points.min(full.max_degree() + 1));
+        let d = Compiler::compile_with_circuit(&pp, label, prog);
+        let z = Compiler::compile_with_compressed(&pp, label, &bytes);
+        let (dok, zok) = (d.is_ok(), z.is_ok());
+        let eq = match (&d, &z) {
+            (Ok((p1, v1)), Ok((p2, v2))) => p1.to_bytes() == p2.to_bytes() && v1.to_bytes() == v2.to_bytes(),
+            _ => true,
+        };
+        caps.push((cn.to_string(), dok, zok, eq, d.err().map(|e| format!("{:?}", e)).unwrap_or_default(), z.err().map(|e| format!("{:?}", e)).unwrap_or_default()));
+    }
+    Ok(RouteCmp { constraints: c, layout: crate::m1::layout_key(&snap), caps, compress_err: None, compressed_len: bytes.len() })
+}
+
+/// Handcrafted descriptions derived from a real one (child process: an
+/// allocation blow-up aborts the child, which the parent reports).
+fn handcrafted_child() -> i32 {
+    let full = crate::setup::pp(200);
+    let prog = sized(20, &Shape::Pi(vec![4, -1]));
+    prog.install_default();
+    let real = Prog::compress().expect("compress");
+    let inner = mp::inflate(&real, 1 << 24).expect("inflate");
+    let base = Desc::decode(&inner).expect("own decoder reads the real description");
+    if base.encode() != inner {
+        println!("MACHINERY own encoder does not reproduce the real description");
+        return 2;
+    }
+    // capacity: pp with max_degree D admits 2^floor(log2(D-6)) - 6 constraints
+    let pp = crate::setup::truncate_pp(&full, 32 + 7); // D = 38 -> 32 - 6 = 26 constraints
+    let maxc = 26usize;
+    let reference = {
+        let (r, peak, _) = measure_capped(1 << 30, || Compiler::compile_with_compressed(&pp, b"h", &real).map(|_| ()));
+        println!("CASE valid-reference ok={} peak={}", matches!(r, Ok(Ok(()))), peak);
+        peak
+    };
+    let grow = |d: &Desc, target: usize| -> Desc {
+        let mut d = d.clone();
+        while d.cons.len() < target {
+            d.cons.push([0, 0, 0, 0, 0]);
+        }
+        d
+    };
+    let mut cases: Vec<(String, Vec<u8>, bool)> = vec![];
+    let enc = |d: &Desc| mp::deflate(&d.encode());
+    cases.push(("constraints=max".into(), enc(&grow(&base, maxc)), true));
+    cases.push(("constraints=max+1".into(), enc(&grow(&base, maxc + 1)), false));
+    for k in 1..=8usize {
+        let mut inner2 = inner.clone();
+        inner2.extend(std::iter::repeat(0u8).take(k));
+        cases.push((format!("trailing-bytes-{}", k), mp::deflate(&inner2), false));
+    }
+    {
+        let mut d = base.clone();
+        d.cons[0][1] = d.witnesses; // witness index at bound
+        cases.push(("witness-index=bound".into(), enc(&d), false));
+        let mut d = base.clone();
+        d.cons[0][1] = d.witnesses - 1;
+        cases.push(("witness-index=bound-1".into(), enc(&d), true));
+        let mut d = base.clone();
+        d.cons[0][0] = d.polys.len() as u64;
+        cases.push(("polynomial-index=bound".into(), enc(&d), false));
+        let mut d = base.clone();
+        let last = d.pis.len() - 1;
+        d.pis[last] = d.cons.len() as u64;
+        cases.push(("public-input-index=bound".into(), enc(&d), false));
+        let mut d = base.clone();
+        d.pis.swap(0, 1);
+        cases.push(("public-inputs-not-increasing".into(), enc(&d), false));
+        let mut d = base.clone();
+        d.witnesses = 1_000_000_000_000;
+        cases.push(("witness-count=1e12".into(), enc(&d), true));
+        let mut d = base.clone();
+        d.scalars.push([0xff; 32]);
+        cases.push(("non-canonical-scalar".into(), enc(&d), false));
+        for (k, nm) in ["pis", "scalars", "polys", "cons"].iter().enumerate() {
+            let mut ann = Announce::default();
+            ann.lens[k] = Some(1u64 << 32 - 1);
+            cases.push((format!("announced-{}-len=2^31", nm), mp::deflate(&base.encode_with(&ann)), false));
+        }
+        cases.push(("deflate-bomb-1GiB".into(), mp::zero_bomb(1 << 30), false));
+    }
+    let mut worst = 0usize;
+    for (name, bytes, want_ok) in cases {
+        let (r, peak, _) = measure_capped(1 << 30, || Compiler::compile_with_compressed(&pp, b"h", &bytes).map(|_| ()));
+        let got = match &r {
+            Ok(Ok(())) => "ok".to_string(),
+            Ok(Err(e)) => format!("err:{:?}", e),
+            Err(p) => format!("panic:{}", p),
+        };
+        worst = worst.max(peak);
+        println!("CASE {} want_ok={} got={} peak={} bound={}", name, want_ok, got, peak, 2 * reference + (1 << 20));
+    }
+    println!("DONE worst_peak={}", worst);
+    0
+}
+
+fn handcrafted(run: &mut Run) {
+    let exe = std::env::current_exe().expect("current exe");
+    let out = std::process::Command::new(exe).args(["C15", "quick"]).env("VP_C15_CHILD", "1").output();
+    let out = match out {
+        Ok(o) => o,
+        Err(e) => {
+            run.machinery(format!("cannot spawn child: {}", e));
+            return;
+        }
+    };
+    let text = String::from_utf8_lossy(&out.stdout).to_string();
+    let done = text.lines().any(|l| l.starts_with("DONE"));
+    let mut last_case = String::new();
+    for l in text.lines() {
+        if l.starts_with("MACHINERY") {
+            run.machinery(l.to_string());
+        }
+        if let Some(rest) = l.strip_prefix("CASE ") {
+            let name = rest.split(' ').next().unwrap_or("").to_string();
+            last_case = name.clone();
+            if name == "valid-reference" {
+                run.gate("valid reference description compiles", rest.contains("ok=true"));
+                continue;
+            }
+            run.transitions += 1;
+            run.evaluations += 1;
+            run.traces_validated += 1;
+            run.nontrivial(fnv(name.as_bytes()));
+            let want_ok = rest.contains("want_ok=true");
+            let got = rest.split(" got=").nth(1).unwrap_or("").split(" peak=").next().unwrap_or("").to_string();
+            let peak: usize = rest.split(" peak=").nth(1).unwrap_or("0").split(' ').next().unwrap_or("0").parse().unwrap_or(0);
+            let bound: usize = rest.split(" bound=").nth(1).unwrap_or("0").trim().parse().unwrap_or(usize::MAX);
+            let case = json!({"handcrafted": name, "got": got, "peak": peak, "bound": bound});
+            if got.starts_with("panic") {
+                run.violation(&format!("handcrafted/{}/panic", name), &format!("compile_with_compressed panicked on {}: {}", name, got), case);
+            } else if want_ok != (got == "ok") {
+                run.violation(&format!("handcrafted/{}/{}", name, if got == "ok" { "accepted" } else { "rejected" }), &format!("handcrafted description {}: expected {}, got {}", name, if want_ok { "Ok" } else { "Err" }, got), case);
+            } else if peak > bound {
+                run.violation(&format!("handcrafted/{}/over-allocation", name), &format!("{}: peak allocation {} exceeds the differential bound {}", name, peak, bound), case);
+            } else {
+                run.outcome(if got == "ok" { "handcrafted:accepted-as-expected" } else { "handcrafted:rejected-as-expected" });
+            }
+        }
+    }
+    if !done {
+        run.violation(
+            &format!("handcrafted/{}/abort", last_case),
+            &format!("child process died (status {:?}) after starting case following '{}': allocation blow-up or abort", out.status.code(), last_case),
+            json!({"after_case": last_case, "status": format!("{:?}", out.status)}),
+        );
+    }
+}
+
+pub fn main(tier: Tier, replay: Option<serde_json::Value>) -> i32 {
+    if std::env::var("VP_C15_CHILD").is_ok() {
+        return handcrafted_child();
+    }
+    let mut run = Run::new("C15", tier, "model_checking");
+    run.rule = "every E1 program state and a named list (unused witnesses, repeated / distinct selector tuples, selectors equal to the built-in table entries, zero-valued PIs, PI on first/last row, custom row on last row) x capacities {min-1, min, min+1, ample}: Prover/Verifier bytes of the compressed route equal those of direct compilation and both routes succeed or fail for exactly the same capacities; handcrafted descriptions (own MessagePack encoder validated against the real one): constraints = max / max+1, trailing bytes 1..8, each index at bound / bound-1, non-increasing PIs, witness count 1e12, announced lengths 2^31, deflate bomb: Err (or Ok where valid) with peak allocation <= 2 x valid peak + 1 MiB, in a child process".into();
+    if replay.is_some() {
+        run.set_replay_mode();
+    }
+    let replay_name: Option<String> = replay.as_ref().and_then(|r| r["case"]["name"].as_str().map(|s| s.to_string()));
+    let full = crate::setup::pp((1usize << 13) + 64);
+    let alpha = e1::alphabet();
+    let mut items = named_circuits();
+    let progs = match tier {
+        Tier::Quick => {
+            let mut v = e1::programs(&alpha, 2, 0, 2);
+            v.retain(|p| p.ops.len() == 1 || (p.ops[0] * 3 + p.ops[1]) % 4 == 0);
+            v
+        }
+        Tier::Thorough => e1::programs(&alpha, 2, 3, 8),
+    };
+    for p in &progs {
+        items.push(Item { name: format!("program/{}", p.name), prog: e1::program_prog(&alpha, p) });
+    }
+    if let Some(n) = &replay_name {
+        items.retain(|i| &i.name == n);
+    }
+    run.bound("circuits", json!(items.len()));
+    let outs = crate::par::par_map(&items, |it| compare_routes(&it.prog, &full, if it.name.len() % 2 == 0 { b"" } else { b"c15-label" }));
+    let mut layouts = std::collections::HashSet::new();
+    for (it, o) in items.iter().zip(outs) {
+        run.transitions += 1;
+        run.evaluations += 1;
+        let class = it.name.split('/').take(if it.name.starts_with("named") { 2 } else { 1 }).collect::<Vec<_>>().join("/");
+        match o {
+            Err(p) => run.machinery(format!("harness panic {}: {}", it.name, p)),
+            Ok(Err(e)) => run.violation(&format!("{}/build-error", class), &format!("{}: {}", it.name, e), json!({"name": it.name})),
+            Ok(Ok(rc)) => {
+                layouts.insert(rc.layout);
+                run.nontrivial(fnv(it.name.as_bytes()) ^ rc.layout);
+                if let Some(e) = &rc.compress_err {
+                    run.violation(&format!("{}/compress-failed", class), &format!("{}: compress failed: {}", it.name, e), json!({"name": it.name}));
+                    continue;
+                }
+                if run.samples.len() < 6 {
+                    run.sample(json!({"name": it.name, "constraints": rc.constraints, "compressed_len": rc.compressed_len, "capacities": rc.caps.iter().map(|c| json!({"cap": c.0, "direct_ok": c.1, "compressed_ok": c.2, "bytes_equal": c.3})).collect::<Vec<_>>()}));
+                }
+                for (cn, dok, zok, eq, de, ze) in &rc.caps {
+                    run.traces_validated += 1;
+                    let case = json!({"name": it.name, "capacity": cn, "constraints": rc.constraints, "direct": if *dok { "ok".to_string() } else { de.clone() }, "compressed": if *zok { "ok".to_string() } else { ze.clone() }});
+                    if dok != zok {
+                        run.violation(&format!("{}/capacity-{}/routes-disagree", class, cn), &format!("{} at capacity {}: direct {} but compressed {}", it.name, cn, if *dok { "compiles" } else { "fails" }, if *zok { "compiles" } else { "fails" }), case);
+                    } else if !eq {
+                        run.violation(&format!("{}/keys-differ", class), &format!("{} at capacity {}: compressed-route keys differ from direct keys", it.name, cn), case);
+                    } else {
+                        run.outcome(&format!("{}:{}", cn, if *dok { "both-compile-identical-keys" } else { "both-fail" }));
+                    }
+                    // the stated capacity rule itself
+                    let expect_ok = cn != "min-1";
+                    if *dok != expect_ok {
+                        run.violation(&format!("{}/capacity-{}/direct-{}", class, cn, if *dok { "compiles" } else { "fails" }), &format!("{}: direct compilation at capacity {} {}", it.name, cn, if *dok { "succeeded" } else { "failed" }), json!({"name": it.name, "capacity": cn, "error": de}));
+                    }
+                }
+            }
+        }
+    }
+    run.states = layouts.len() as u64;
+    handcrafted(&mut run);
+    run.gate("both-fail cases at min-1", run.count("min-1:both-fail") > 10);
+    run.gate("identical keys at min", run.count("min:both-compile-identical-keys") > 10);
+    run.gate("handcrafted rejected", run.count("handcrafted:rejected-as-expected") >= 10);
+    run.assumptions = vec!["the own MessagePack encoder is validated by byte-identical re-encoding of real descriptions".into(), "capacity rule: a circuit of c constraints needs max_degree >= (c+6).next_power_of_two() + 6".into()];
+    run.finish()
 }
